@@ -250,11 +250,12 @@ class Interp:
         if k == 'done':
             return self._task(e[1]).done
         if k == 'time_ge':
-            return time >= num(e[1])
+            return self._date('ge', num(e[1]))      # (one object per date under the 'date_cache' hook: also shared by
+                                                    #  the until-blocks, connectives and plain waits of one activity)
         if k == 'time_lt':
             return time < num(e[1])
         if k == 'time_eq':
-            return time == num(e[1])
+            return self._date('eq', num(e[1]))
         if k == 'instant':
             return instant
         if k == 'eternity':
